@@ -69,11 +69,11 @@ theorem c02_search_complete (adjE : Array (List (Nat × Int × Nat))) (wOf : Nat
   biSearch_complete adjE wOf h pick hp limit s t hs ht hst D hD hl
 
 /-- one phase, both branches -/
-theorem c02_signed_phase (g : Graph) (hs : g.simpleB = true) (hp : g.positiveB = true)
+theorem c02_signed_phase (g : Graph) (ord : List Nat) (hs : g.simpleB = true) (hp : g.positiveB = true)
     (pk : PickFam) (hpk : ∀ i L, PickOK (pk i L)) (S : List Nat) (hS : StrictSorted S) (hSm : ∀ e ∈ S, e < g.m)
     (σ : List Nat) (hσ : σ.Perm S) (hex : ∃ Z, EvenSet g Z ∧ dotPar Z S = true) :
-    SignedAlgoL.PhaseFound g S (signedPhaseSearch g pk σ S) :=
-  SignedAlgoL.signedPhaseSearch_ok g hs hp pk hpk S hS hSm σ hσ hex
+    SignedAlgoL.PhaseFound g S (signedPhaseSearch g ord pk σ S) :=
+  SignedAlgoL.signedPhaseSearch_ok g ord hs hp pk hpk S hS hSm σ hσ hex
 
 /-- non-vacuity: the triangle 0-1-2 with weights 1,2,3 under the two concrete heaps of the driver -/
 example :
